@@ -57,7 +57,7 @@ def _ids(rng, n, family):
 
 def gen_cases(ctx):
     rng = ctx.rng
-    n = ctx.n(2400, 40000)
+    n = ctx.n(9600, 120000)
     for i in range(n):
         fam = i % 8
         idfam = "main"
